@@ -91,6 +91,16 @@ claim("C07", "exploration",
       "re-register equivalent expression' is a loud refusal, counted, not a violation.",
       "DESIGN.md section 3 C07")
 
+claim("C09", "exploration",
+      "history monitor across fresh interpreters: sha256 of every generated text vs a canonical table",
+      "A canonical digest table of all 274 (target, function, signature[, debug]) generations (python, numpy, stablehlo, xla_client, cpp, lax + the "
+      "apmath->lax generations) is produced by a fresh interpreter (PYTHONHASHSEED=0, sorted order); every other history - other/random hash seeds, "
+      "reversed/shuffled orders, 2-3 repetitions in one process, pollution prefixes (other targets, alternative context, temporary symbols, warn_once, "
+      "failing traces, deep_first=False rewrites, apmath first, expression churn), interleaved pollution - runs in its own subprocess and must reproduce "
+      "the table byte for byte; a mismatch is reported with a unified diff of the two texts.",
+      "Trusted: sha256. Refused generations (NotImplementedError) are compared as refusals. results/* in the repository are not the reference (generated by older versions).",
+      "DESIGN.md section 3 C09")
+
 SOURCE_COMMITS = []
 
 
